@@ -88,6 +88,10 @@ def run(chk):
     _run_seq(chk)
     if not chk.violations:
         concurrent_part(chk)
+    if not chk.violations:
+        # the work queue that carries the lazy resize / destroy work: own model + theorems + tie (props/wq.py)
+        from props import wq
+        wq.part(chk)
 
 
 def _run_seq(chk):
@@ -168,6 +172,9 @@ def replay(rp):
     if rp.get("scenario") == "lfht_conc":
         from props import c05
         return c05.replay(rp)
+    if rp.get("scenario") == "wq":
+        from props import wq
+        return wq.replay(rp)
     ok, log = build()
     if not ok:
         print(log)
